@@ -148,6 +148,7 @@ class Ctx:
             env["JAVA_TOOL_OPTIONS"] = java_opts
         t = time.time()
         rc, out, err = self.run(cmd, cwd=wd, timeout=timeout, env=env)
+        out = "\n".join(l for l in out.splitlines() if not l.startswith(("Parsing file", "Semantic processing", "Linting of")))
         res = {"rc": rc, "out": out + err, "workdir": wd, "generated": 0, "distinct": 0,
                "violated": None, "wall_s": round(time.time() - t, 1), "name": name}
         m = re.findall(r"(\d+) states generated, (\d+) distinct states found", out)
